@@ -132,7 +132,8 @@ LEVEL_TEXT = ("Machine-checked Coq theorems for ALL chain problems (any desired 
               "(C02_rounded), a layer with room everywhere is not moved (C02_unmoved) and neither is a single item whose "
               "neighbours' solved positions leave the gaps around its target (C02_unmoved_item); model tied to the code by "
               "differential execution on every run. The text's 'among placements inside the bounds' holds only up to the wall "
-              "slack delta (known finding soft-wall-slack; C03_inside_tight_refuted).")
+              "slack delta (known finding soft-wall-slack; C03_inside_tight_refuted)."
+              " The soft-wall finding is quantified: the solution clamped into the bounds is THE least-squares optimum among separated placements inside the bounds (C02_hard_optimum) and every item is within delta = sum|x_i - t_i|/1e10 of it (C02_distance_to_hard_optimum); an item whose neighbours leave room is not moved (C02_unmoved_item).")
 LEVEL_NOTE = ("Trusted: Coq kernel; extraction re-checked by vm_compute; the harness. Modelled, not verified: "
               "removeOverlap.py / vpsc.py (exact rationals for doubles; the solver's 1e-10 / 1e-4 tolerances make it exact "
               "only up to ~1e-10, disagreements inside the 1e-7 rounding band are counted). The targets of deeper layers "
